@@ -85,6 +85,13 @@ def main():
         shutil.rmtree(scratch, ignore_errors=True)
         shutil.rmtree(home, ignore_errors=True)
         shutil.rmtree(os.path.join(V, "replays", prop), ignore_errors=True)
+    prev_path = os.path.join(V, "seeded", name, "meta.json")
+    if not run_tests and os.path.exists(prev_path):
+        prev = json.load(open(prev_path))
+        for k in ("suite_missing_with_patch", "suite_seconds"):
+            if k in prev:
+                meta[k] = prev[k]
+        run_tests = "suite_missing_with_patch" in prev
     ok = (meta.get("demo_clean_exit") == 0 and meta.get("patch_applies") and meta.get("imports_patched")
           and meta.get("demo_patched_exit") not in (0, None) and (not run_tests or not meta.get("suite_missing_with_patch")))
     meta["confirmed"] = bool(ok)
